@@ -144,7 +144,7 @@ def families(tier, rng):
     kinds = ["undef", "strlit", "rettype", "macro", "syntax"]
     for kind in kinds:
         for c in (cols_q if tier == "quick" else cols_t):
-            pads = pads_q.get(c, ["lead"]) if tier == "quick" else (["lead"] if c is None else ["lead", "mid", "tab"])
+            pads = pads_q.get(c, ["lead"]) if tier == "quick" else (["lead"] if c is None else ["lead", "mid", "tab", "midtab"])
             if tier == "quick" and kind in ("rettype", "macro") and c in (100, 16383):
                 continue
             for pad in pads:
@@ -153,7 +153,7 @@ def families(tier, rng):
         [("undef", None, "lead"), ("strlit", 100, "lead"), ("rettype", 16383, "mid"), ("macro", None, "lead")],
         [("strlit", None, "lead"), ("undef", 16384, "lead"), ("macro", None, "lead")],
         [("undef", 20000, "mid"), ("strlit", 16385, "lead"), ("rettype", None, "lead")],
-        [("macro", 16383, "lead"), ("undef", 70, "tab"), ("strlit", 16383, "lead")],
+        [("macro", 16383, "lead"), ("undef", 70, "tab"), ("strlit", 16383, "midtab")],
     ]
     if tier == "thorough":
         multi += [[("undef", rng.choice(cols_t), rng.choice(["lead", "mid", "tab"])),
